@@ -247,11 +247,13 @@ on_timeout(int sig)
     _exit(77);
 }
 
+/* CPU-time limit, plus a wall-clock limit (6x) for a request that blocks without using the CPU */
 static void
 arm(unsigned sec)
 {
-    struct itimerval it = {{0, 0}, {sec, 0}};
+    struct itimerval it = {{0, 0}, {sec, 0}}, wall = {{0, 0}, {6 * sec, 0}};
     setitimer(ITIMER_VIRTUAL, &it, NULL);
+    setitimer(ITIMER_REAL, &wall, NULL);
 }
 
 static void
@@ -449,6 +451,7 @@ main(void)
     if ((e = getenv("VERIF_FUZZ_HEALTH_C"))) health_every_c = atoi(e);
     if ((e = getenv("VERIF_FUZZ_HEALTH_S"))) health_every_s = atoi(e);
     signal(SIGVTALRM, on_timeout);
+    signal(SIGALRM, on_timeout);
     VP_ASAN_HOOK();
     ly_log_options(LY_LOSTORE);
     if (setup_C()) { fprintf(stderr, "setup failed: %s\n", ly_err_last(C) ? ly_err_last(C)->msg : "?"); return 2; }
